@@ -28,9 +28,6 @@ Definition app_iter_ok (d : app_iter) : Prop :=
   Forall vok (ai_datagrams d) /\
   Forall sdec_ok (ai_streams d).
 
-(* C08's first flight clause for one packet of _write_application: no PATH_CHALLENGE before the ACK *)
-Definition app_iter_ackfirst (d : app_iter) : Prop := ai_challenge d = false \/ ai_ack d = None.
-
 Definition hs_iter_ok (d : hs_iter) : Prop := opt_ok ack_ok (hi_ack d) /\ opt_ok sender_ok (hi_crypto d).
 
 Definition dts_ok (d : dts_in) : Prop :=
@@ -38,8 +35,6 @@ Definition dts_ok (d : dts_in) : Prop :=
   opt_ok (Forall hs_iter_ok) (di_initial d) /\
   opt_ok (Forall hs_iter_ok) (di_handshake d) /\
   opt_ok (fun x => Forall app_iter_ok (snd x)) (di_app d).
-
-Definition dts_ackfirst (d : dts_in) : Prop := opt_ok (fun x => Forall app_iter_ackfirst (snd x)) (di_app d).
 
 (* ---------- frames of one packet --------------------------------------------------------------------------------- *)
 Lemma RF_opt k c {A} (w : st -> A -> wres) (P : A -> Prop) o s :
@@ -65,8 +60,9 @@ Proof.
   - destruct D; apply w_stream_RF; auto.
 Qed.
 
-(* the part of an application packet after PATH_CHALLENGE and ACK *)
+(* the part of an application packet after the ACK *)
 Definition w_app_tail (c : cfg) (s : st) (d : app_iter) : wres :=
+  wseq (w_if (ai_challenge d) (w_path_challenge c) s) (fun s =>
   wseq (w_if (ai_hs_done d) (w_handshake_done c) s) (fun s =>
   wseq (w_list (fun s _ => w_path_response c s) s (ai_responses d)) (fun s =>
   wseq (w_list (fun s x => w_new_connection_id c s (fst x) (snd x)) s (ai_new_cids d)) (fun s =>
@@ -78,17 +74,16 @@ Definition w_app_tail (c : cfg) (s : st) (d : app_iter) : wres :=
   wseq (w_if (ai_ping_probe d) (w_ping c) s) (fun s =>
   wseq (w_opt (w_crypto c) s (ai_crypto d)) (fun s =>
   wseq (w_datagrams c s (ai_datagrams d)) (fun s =>
-  w_list (w_sdec c) s (ai_streams d)))))))))))).
+  w_list (w_sdec c) s (ai_streams d))))))))))))).
 
 Lemma w_app_iter_eq c s d :
-  w_app_iter c s d =
-  wseq (w_if (ai_challenge d) (w_path_challenge c) s) (fun s =>
-  wseq (w_opt (w_ack_in c) s (ai_ack d)) (fun s => w_app_tail c s d)).
+  w_app_iter c s d = wseq (w_opt (w_ack_in c) s (ai_ack d)) (fun s => w_app_tail c s d).
 Proof. reflexivity. Qed.
 
 Lemma w_app_tail_RF k c d : app_iter_ok d -> forall s, OI c s -> RF k c s (w_app_tail c s d).
 Proof.
   intros (_ & K2 & K3 & K4 & K5 & K6 & K7 & K8 & K9) s Hs. unfold w_app_tail.
+  apply RF_seq; [apply RF_if; [exact Hs|intros _; apply w_path_challenge_RF; exact Hs]|clear s Hs; intros s Hs].
   apply RF_seq; [apply RF_if; [exact Hs|intros _; apply w_handshake_done_RF; exact Hs]|clear s Hs; intros s Hs].
   apply RF_seq; [apply (RF_list k c _ (ai_responses d) (fun _ => True)); [intros; apply w_path_response_RF; assumption| |exact Hs]|
                  clear s Hs; intros s Hs].
@@ -114,20 +109,12 @@ Lemma wseq_skip s f : wseq (wskip s) f = f s.
 Proof. unfold wseq, wskip. destruct (f s) as [[o s2] tr]. reflexivity. Qed.
 
 Lemma w_app_iter_RF k c s d :
-  OI c s -> app_iter_ok d -> (k = false -> cur_inflight s = false /\ app_iter_ackfirst d) -> RF k c s (w_app_iter c s d).
+  OI c s -> app_iter_ok d -> (k = false -> cur_inflight s = false) -> RF k c s (w_app_iter c s d).
 Proof.
   intros Hs Hd Hk. rewrite w_app_iter_eq. pose proof Hd as (K1 & _).
-  destruct (ai_ack d) as [a|] eqn:EA.
-  - destruct (ai_challenge d) eqn:EC.
-    + (* PATH_CHALLENGE then ACK: outside the flight discipline *)
-      assert (k = true) as -> by (destruct k; [reflexivity|destruct (Hk eq_refl) as (_ & [X|X]); congruence]).
-      cbn [w_if]. apply RF_seq; [apply w_path_challenge_RF; exact Hs|intros s1 H1].
-      apply RF_seq; [cbn [w_opt]; apply w_ack_RF; [exact H1|exact K1|discriminate]|intros s2 H2; apply w_app_tail_RF; assumption].
-    + cbn [w_if]. rewrite wseq_skip.
-      apply RF_seq; [cbn [w_opt]; apply w_ack_RF; [exact Hs|exact K1|intros K; apply (Hk K)]|
-                     intros s2 H2; apply w_app_tail_RF; assumption].
-  - apply RF_seq; [apply RF_if; [exact Hs|intros _; apply w_path_challenge_RF; exact Hs]|intros s1 H1].
-    cbn [w_opt]. rewrite wseq_skip. apply w_app_tail_RF; assumption.
+  apply RF_seq.
+  - destruct (ai_ack d) as [a|]; cbn [w_opt]; [apply w_ack_RF; assumption|apply RF_skip; exact Hs].
+  - intros s2 H2. apply w_app_tail_RF; assumption.
 Qed.
 
 Lemma w_hs_iter_RF k c s d : OI c s -> hs_iter_ok d -> (k = false -> cur_inflight s = false) -> RF k c s (w_hs_iter c s d).
@@ -198,16 +185,14 @@ Proof.
   - unfold RP. cbn [dk run step]. rewrite SP, Hop. cbn [fst]. split; [reflexivity|split; [reflexivity|intros [X|X]; discriminate]].
 Qed.
 
-Lemma w_app_RP k c pt its : Forall app_iter_ok its -> (k = false -> Forall app_iter_ackfirst its) ->
-  forall s, GI c s -> RP k c s (w_app c s pt its).
+Lemma w_app_RP k c pt its : Forall app_iter_ok its -> forall s, GI c s -> RP k c s (w_app c s pt its).
 Proof.
-  induction 1 as [|d t Hd Ht IH]; intros Hk s Hs; cbn [w_app]; [apply RP_skip; exact Hs|].
+  induction 1 as [|d t Hd Ht IH]; intros s Hs; cbn [w_app]; [apply RP_skip; exact Hs|].
   destruct (ai_paced d); [apply RP_skip; exact Hs|].
-  assert (Hk' : k = false -> Forall app_iter_ackfirst t) by (intros K; specialize (Hk K); inversion Hk; assumption).
   apply start_packet_then; [exact Hs|]. intros s1 H1 F1.
   apply RF_RP_seq.
-  - apply w_app_iter_RF; [exact H1|exact Hd|]. intros K. split; [exact F1|]. specialize (Hk K). inversion Hk; assumption.
-  - intros s2 H2. destruct (cur_nonempty s2); [apply IH; [exact Hk'|apply OI_GI; exact H2]|apply RP_skip; apply OI_GI; exact H2].
+  - apply w_app_iter_RF; [exact H1|exact Hd|intros _; exact F1].
+  - intros s2 H2. destruct (cur_nonempty s2); [apply IH; apply OI_GI; exact H2|apply RP_skip; apply OI_GI; exact H2].
 Qed.
 
 Lemma w_hs_RP k c pt its : Forall hs_iter_ok its -> forall s, GI c s -> RP k c s (w_hs c s pt its).
@@ -228,30 +213,30 @@ Proof.
   apply RF_RP. apply w_close_RF; [exact H1|exact Hc|intros _; exact F1].
 Qed.
 
-Lemma dts_body_RP k c s d : GI c s -> dts_ok d -> (k = false -> dts_ackfirst d) -> RP k c s (dts_body c s d).
+Lemma dts_body_RP k c s d : GI c s -> dts_ok d -> RP k c s (dts_body c s d).
 Proof.
-  intros Hs (D1 & D2 & D3 & D4) Hk. unfold dts_body.
+  intros Hs (D1 & D2 & D3 & D4). unfold dts_body.
   destruct (di_close d) as [ci|]; [apply w_close_round_RP; [exact D1|exact Hs]|].
   apply RP_catch.
   apply RP_seq.
   { destruct (di_initial d) as [l|]; cbn [w_opt]; [apply w_hs_RP; [exact D2|exact Hs]|apply RP_skip; exact Hs]. }
   intros s1 H1. apply RP_seq.
   { destruct (di_handshake d) as [l|]; cbn [w_opt]; [apply w_hs_RP; [exact D3|exact H1]|apply RP_skip; exact H1]. }
-  intros s2 H2. unfold dts_ackfirst in Hk.
-  destruct (di_app d) as [[pt its]|]; cbn [w_opt fst snd]; [apply w_app_RP; [exact D4|exact Hk|exact H2]|apply RP_skip; exact H2].
+  intros s2 H2.
+  destruct (di_app d) as [[pt its]|]; cbn [w_opt fst snd]; [apply w_app_RP; [exact D4|exact H2]|apply RP_skip; exact H2].
 Qed.
 
 (* ---------- writers_disciplined ----------------------------------------------------------------------------------- *)
 (* For every configuration, every first packet number and all decision inputs with field values in their wire ranges, the
-   builder op history of one datagrams_to_send call satisfies the caller discipline (k = true: C13's; k = false, when no
-   packet carries a PATH_CHALLENGE before an ACK: also C08's three flight clauses), and it is the history the builder
+   builder op history of one datagrams_to_send call satisfies the caller discipline (k = true: C13's; k = false: also C08's
+   three flight clauses -- ACK / CLOSE are the first frame of their packet since fix 7b299f1), and it is the history the builder
    model executes (the trace leads to the state the writers end in). *)
-Theorem writers_dk k c pn d : dts_ok d -> (k = false -> dts_ackfirst d) ->
+Theorem writers_dk k c pn d : dts_ok d ->
   dk k c (init_st c pn) (dts_trace c pn d) = true /\
   fst (run c (init_st c pn) (dts_trace c pn d)) = snd (fst (dts c (init_st c pn) d)).
 Proof.
-  intros Hd Hk. unfold dts_trace, dts.
-  pose proof (dts_body_RP k c (init_st c pn) d (init_GI c pn) Hd Hk) as B.
+  intros Hd. unfold dts_trace, dts.
+  pose proof (dts_body_RP k c (init_st c pn) d (init_GI c pn) Hd) as B.
   destruct (dts_body c (init_st c pn) d) as [[o s1] tr]. destruct B as (B1 & B2 & B3).
   unfold wseq. destruct o; cbn [fst snd]; auto.
   unfold do_flush. destruct (flush c s1) as [[[o2 s2] dg] pk] eqn:FL. cbn [fst snd].
@@ -261,8 +246,8 @@ Proof.
 Qed.
 
 Theorem writers_disciplined_all c pn d : dts_ok d -> disciplined c (init_st c pn) (dts_trace c pn d) = true.
-Proof. intros Hd. rewrite <- dk_true. apply (writers_dk true c pn d Hd). discriminate. Qed.
+Proof. intros Hd. rewrite <- dk_true. apply (writers_dk true c pn d Hd). Qed.
 
-Theorem writers_flight_disciplined_all c pn d : dts_ok d -> dts_ackfirst d ->
+Theorem writers_flight_disciplined_all c pn d : dts_ok d ->
   fl_disciplined c (init_st c pn) (dts_trace c pn d) = true.
-Proof. intros Hd Ha. rewrite <- dk_false. apply (writers_dk false c pn d Hd). intros _; exact Ha. Qed.
+Proof. intros Hd. rewrite <- dk_false. apply (writers_dk false c pn d Hd). Qed.
